@@ -1,13 +1,19 @@
-(* LiftStruct (C01): the program-level theorem of LiftProg extended from table primitives to the STRUCTURAL primitives
-   that real jaxprs of integer programs contain — constants (literals), broadcast_in_dim, reshape, squeeze, transpose —
-   next to every elementwise exact kernel.
+(* LiftStruct (C01): the program-level theorem of LiftProg extended from table primitives to what real jaxprs of integer
+   programs contain — literals, broadcast_in_dim, reshape, squeeze, transpose, integer reductions over axes, concatenate,
+   slice — next to every elementwise exact kernel.
      gkern          an abstract kernel: how many operands, the nodes it emits on fresh names, its tensor-level JAX
                     semantics; gkern_ok = the emitted nodes evaluate (tensor-level ONNX semantics) to exactly that value;
      greg_contract  every registry of ok kernels meets LoweringSem.eqn_contract  (generalises LiftProg.kreg_contract);
+     ssem           the node semantics: LiftProg.kgsem + Reshape / Expand / Squeeze / Transpose / ConstantFull / Concat /
+                    Slice / ReduceSum / ReduceProd / ReduceMax / ReduceMin (keepdims = 0);
      gk_elem        every elementwise exact kernel of LiftProg is such a kernel (by Lift.keval_lift);
-     gk_const / gk_reshape / gk_bcast / gk_squeeze / gk_transpose   the structural kernels with their theorems
-                    ONNX graph == JAX index semantics, all ranks and extents;
-     struct_fragment_correct   every jaxpr over a registry of such kernels lowers to a graph computing the JAX value. *)
+     gk_const / gk_full / gk_reshape / gk_bcast / gk_squeeze / gk_transpose / gk_concat / gk_slice   structural kernels,
+                    ONNX graph == JAX index semantics, all ranks and extents (broadcast_in_dim_correct, slice_correct);
+     gk_reduce / gk_reduce_sum_via64 / gk_reduce_prod_via64 / gk_reduce_mm_via32 / gk_reduce_and / gk_reduce_or
+                    reductions over any axes mask, exact with wraparound (scalar theorems in LiftReduce.v), directly or
+                    between two casts (gk_crc);
+     gspec / stable / struct_program_correct   every jaxpr over a table of such kernels lowers to a graph computing the
+                    JAX value;  rtree / gtree / sp_tree / sp_jax / sp_onnx: what the harness evaluates (tie S and ties D). *)
 From Coq Require Import String List Bool Arith Lia ZArith PeanoNat.
 From J2O Require Import PyLib Dtype Tensor Batch Reshape Graph Lowering LoweringSem OnnxInt Kernels Lift LiftProg LiftReduce.
 Import ListNotations.
@@ -395,8 +401,12 @@ Local Open Scope string_scope.
 (* static shapes: the target shape / axes / permutation (an initializer input in ONNX) is the node's payload *)
 Definition tfull {A} (s : list nat) (c : A) : tensor A := mkT s (fun _ => c).
 Definition enc_full (s : list nat) (c : sval) : list nat := length s :: s ++ enc_const c.
+(* ONNX Range(0, n, 1): the vector 0 .. n-1;  lax.iota(dtype, shape, dimension): out[idx] = idx[dimension] *)
+Definition trange (n : nat) : tensor sval := mkT [n] (fun idx => VZ (Z.of_nat (nth 0 idx 0))).
+Definition jax_iota (shape : list nat) (dim : nat) : tensor sval := mkT shape (fun idx => VZ (Z.of_nat (nth dim idx 0))).
 Definition ssem (op : string) (ats : list nat) (vals : list cten) : option (list cten) :=
-  if String.eqb op "ConstantFull" then                      (* an initializer holding one value at every index *)
+  if String.eqb op "Range" then match ats, vals with [n], [] => Some [tcanon (trange n)] | _, _ => None end
+  else if String.eqb op "ConstantFull" then                      (* an initializer holding one value at every index *)
     match ats, vals with
     | n :: rest, [] => match dec_const (skipn n rest) with Some c => Some [tcanon (tfull (firstn n rest) c)] | None => None end
     | _, _ => None end
@@ -763,6 +773,57 @@ Proof.
   cbn [sem1 sred_onnx sred_jax]. unfold lift1, lz. change (inj SZ) with VZ. rewrite prj_VZ, map_map. f_equal.
   rewrite <- (reduce_prod_via64_correct sb (map (prj SZ) l)) by lia. unfold lowered_reduce_prod_via64. rewrite map_map. reflexivity.
 Qed.
+(* reduce_max / reduce_min on int16 / uint16 (proposed lowering): Cast(int32) -> ReduceMax / ReduceMin -> Cast back; exact for
+   operands that lie in their integer type (checked on the whole tensor) *)
+Definition I32r : ity := (true, 32%Z).
+Definition elem_in (sb : ity) (v : sval) : bool := match v with VZ z => in_intb sb z | _ => false end.
+Lemma in_int_narrow sb z : (0 < snd sb <= 16)%Z -> in_int sb z -> in_int I32r z.
+Proof.
+  intros [Hb H16]. destruct sb as [sg b]. unfold in_int, int_lo, int_hi, I32r. simpl in *. intro H.
+  assert (2 ^ b <= 2 ^ 16)%Z by (apply Z.pow_le_mono_r; lia).
+  assert (0 < 2 ^ (b - 1))%Z by (apply Z.pow_pos_nonneg; lia).
+  assert (2 ^ (b - 1) <= 2 ^ 15)%Z by (apply Z.pow_le_mono_r; lia).
+  change (2 ^ (32 - 1))%Z with 2147483648%Z. change (2 ^ 16)%Z with 65536%Z in *. change (2 ^ 15)%Z with 32768%Z in *.
+  destruct sg; lia.
+Qed.
+Lemma fold1_in (op : Z -> Z -> Z) (Hop : forall a b, op a b = a \/ op a b = b) l v : fold1 op l = Some v -> In v l.
+Proof.
+  destruct l as [|x l]; [discriminate|]. simpl. intro H. injection H as <-. revert x.
+  induction l as [|y l IH]; intro x; simpl; [now left|].
+  destruct (IH (op x y)) as [E|Hin]; [|right; right; exact Hin]. rewrite <- E. destruct (Hop x y) as [->| ->]; [now left | right; now left].
+Qed.
+Lemma mm_law (rk : rkind) sb (l : list sval) : (rk = RMax \/ rk = RMin) -> (0 < snd sb <= 16)%Z ->
+  Forall (fun v => elem_in sb v = true) l ->
+  sem1 (OCast sb) (sred_onnx rk I32r (map (sem1 (OCast I32r)) l)) = sred_jax rk sb l.
+Proof.
+  intros Hrk Hb Hall.
+  assert (Hz : Forall (in_int sb) (lz l)).
+  { unfold lz. apply Forall_forall. intros z Hz. apply in_map_iff in Hz as (v & <- & Hv). rewrite Forall_forall in Hall.
+    specialize (Hall v Hv). destruct v; try discriminate. simpl. now apply in_intb_spec. }
+  assert (Hm : lz (map (sem1 (OCast I32r)) l) = lz l).
+  { unfold lz. rewrite map_map. apply map_ext_in. intros v Hv. cbn [sem1]. unfold lift1. change (inj SZ) with VZ. rewrite prj_VZ.
+    unfold o_cast. apply wrap_id; [simpl; lia|]. apply (in_int_narrow sb); [exact Hb|]. rewrite Forall_forall in Hz. apply Hz.
+    unfold lz. now apply in_map. }
+  assert (H0 : in_int sb 0).
+  { destruct sb as [[|] b]; unfold in_int, int_lo, int_hi; simpl in *;
+      assert (0 < 2 ^ (b - 1))%Z by (apply Z.pow_pos_nonneg; lia); assert (0 < 2 ^ b)%Z by (apply Z.pow_pos_nonneg; lia); lia. }
+  rewrite Forall_forall in Hz.
+  destruct Hrk as [-> | ->]; cbn [sred_onnx sred_jax sem1]; unfold lift1; change (inj SZ) with VZ;
+    change (fun x : sval => VZ (o_cast I32r (prj SZ x))) with (sem1 (OCast I32r)); rewrite prj_VZ, Hm; f_equal;
+    unfold o_cast, o_reduce_max, o_reduce_min, jax_reduce_max, jax_reduce_min; change o_max with Z.max; change o_min with Z.min.
+  - destruct (fold1 Z.max (lz l)) as [m|] eqn:E; apply wrap_id; try lia; try exact H0. apply Hz.
+    apply (fold1_in Z.max) in E; [exact E|]. intros a b. destruct (Z.max_spec a b) as [[_ ->]|[_ ->]]; auto.
+  - destruct (fold1 Z.min (lz l)) as [m|] eqn:E; apply wrap_id; try lia; try exact H0. apply Hz.
+    apply (fold1_in Z.min) in E; [exact E|]. intros a b. destruct (Z.min_spec a b) as [[_ ->]|[_ ->]]; auto.
+Qed.
+Definition gk_reduce_mm_via32 (rk : rkind) (sb : ity) (mask : list bool) : gkern :=
+  gk_crc (OCast I32r) rk I32r (OCast sb) mask (sred_jax rk sb) (fun _ => (0 <? snd sb)%Z && (snd sb <=? 16)%Z) (elem_in sb).
+Lemma gk_reduce_mm_via32_ok rk sb mask : (rk = RMax \/ rk = RMin) -> (0 <= snd sb)%Z -> sgkern_ok (gk_reduce_mm_via32 rk sb mask).
+Proof.
+  intros Hrk Hb0. apply gk_crc_ok; try reflexivity; try exact Hb0; try (simpl; lia).
+  intros s l _ HD _ HP. apply andb_prop in HD as [H1 H2]. apply Z.ltb_lt in H1. apply Z.leb_le in H2.
+  apply mm_law; [exact Hrk | lia | exact HP].
+Qed.
 (* reduce_and on bool: Cast(int64) -> ReduceMin -> Cast(bool) *)
 Definition gk_reduce_and (mask : list bool) : gkern :=
   gk_crc (OCastOfBool I64r) RMin I64r OCastToBool mask (fun l => VB (jax_reduce_and (lb l))) (fun _ => true) (fun _ => true).
@@ -841,6 +902,7 @@ Inductive gspec :=
 | GReduce (rk : rkind) (sb : ity) (mask : list bool)     (* reduce_sum / prod / max / min over the masked axes *)
 | GReduceSum64 (sb : ity) (mask : list bool)             (* reduce_sum on uint8 / uint16 / uint32 *)
 | GReduceProd64 (sb : ity) (mask : list bool)            (* reduce_prod through an int64 work type *)
+| GReduceMax32 (sb : ity) (mask : list bool) | GReduceMin32 (sb : ity) (mask : list bool)   (* through an int32 work type *)
 | GReduceAnd (mask : list bool) | GReduceOr (mask : list bool)
 | GConcat (n axis : nat)
 | GSlice (starts limits strides : list nat).
@@ -856,6 +918,8 @@ Definition gk_of (s : gspec) : option gkern :=
   | GReduce rk sb m => Some (gk_reduce rk sb m)
   | GReduceSum64 sb m => if (0 <=? snd sb)%Z then Some (gk_reduce_sum_via64 sb m) else None
   | GReduceProd64 sb m => if (0 <=? snd sb)%Z then Some (gk_reduce_prod_via64 sb m) else None
+  | GReduceMax32 sb m => if (0 <=? snd sb)%Z then Some (gk_reduce_mm_via32 RMax sb m) else None
+  | GReduceMin32 sb m => if (0 <=? snd sb)%Z then Some (gk_reduce_mm_via32 RMin sb m) else None
   | GReduceAnd m => Some (gk_reduce_and m)
   | GReduceOr m => Some (gk_reduce_or m)
   | GConcat n ax => Some (gk_concat n ax)
@@ -874,6 +938,8 @@ Proof.
   - apply gk_reduce_ok.
   - destruct (0 <=? snd sb)%Z eqn:E; [|discriminate]. injection H as <-. apply gk_reduce_sum_via64_ok. now apply Z.leb_le.
   - destruct (0 <=? snd sb)%Z eqn:E; [|discriminate]. injection H as <-. apply gk_reduce_prod_via64_ok. now apply Z.leb_le.
+  - destruct (0 <=? snd sb)%Z eqn:E; [|discriminate]. injection H as <-. apply gk_reduce_mm_via32_ok; [now left | now apply Z.leb_le].
+  - destruct (0 <=? snd sb)%Z eqn:E; [|discriminate]. injection H as <-. apply gk_reduce_mm_via32_ok; [now right | now apply Z.leb_le].
   - apply gk_reduce_and_ok.
   - apply gk_reduce_or_ok.
   - apply gk_concat_ok.
